@@ -16,7 +16,9 @@ ORACLES = ['installed', 'specifiers']
 RULE = ('one run = seeded universe of small lexicons (ids a/ab/a-b/abc/b/zz so that ids are '
         'prefixes of others, 1-3 versions per id from {1, 1.0, 2, 1.0+x, 2020-rc.1, 10}, mixed '
         'languages) + a seeded history of adds/removes/re-adds that changes which version is '
-        'the most recently added; after every op a seeded battery of ~40 specifier strings '
+        'the most recently added, in 30% of the runs spread over two data directories between '
+        'which wn.config.data_directory is switched (with and without a process restart); '
+        'after every op a seeded battery of ~40 specifier strings '
         '(*, id:version, id:*, *:version, bare ids, globs with * ? [..], absent ids/versions, '
         'space-separated lists mixing all of these) x lang in {None, each language, absent} is '
         'evaluated through wn.lexicons(), wn.Wordnet() and (on a database copy) wn.remove() '
@@ -180,8 +182,18 @@ def build(seed):
     swarm = {'routes': False, 'batch': False, 'short_reads': False}
     m = Model(u)
     plan = []
-    for _ in range(prng.randint(4, 10)):
+    # some callers keep two data directories and point wn.config at one or the other
+    two_dirs = prng.random() < 0.3
+    models = {'primary': m, 'second': Model(u)}
+    cur = 'primary'
+    for _ in range(prng.randint(4, 10) + (4 if two_dirs else 0)):
         r = prng.random()
+        if two_dirs and prng.random() < 0.35 and plan:
+            models[cur] = m
+            cur = 'second' if cur == 'primary' else 'primary'
+            m = models[cur]
+            plan.append({'op': 'switch', 'node': cur, 'restart': prng.random() < 0.5})
+            continue
         addable = [res for res in u['resources'] if m.plan_add(res['lexicons'])]
         if (r < 0.6 and addable) or not m.installed:
             res = prng.choice(addable or u['resources'])
@@ -193,6 +205,11 @@ def build(seed):
             m.remove_specs([sp])
         else:
             plan.append({'op': 'restart'})
+    if two_dirs and prng.random() < 0.7:
+        # a session that only reads: a fresh process visiting both directories in turn
+        for k in range(prng.choice([2, 3])):
+            cur = 'second' if cur == 'primary' else 'primary'
+            plan.append({'op': 'switch', 'node': cur, 'restart': k == 0})
     if prng.random() < 0.12:
         # one of the later mutations is performed by a second process
         cands = [i for i, op in enumerate(plan) if i >= 1 and op['op'] in ('add', 'remove')]
